@@ -16,17 +16,17 @@ import (
 func profileFor(prop string) (Profile, []Monitor) {
 	switch prop {
 	case "C01":
-		return Profile{Hostile: true, Probes: 2}, []Monitor{&chipsMon{}}
+		return Profile{Hostile: true, Probes: 2, NoBBGames: true}, []Monitor{&chipsMon{}}
 	case "C02":
 		return Profile{ThemedDecks: true, Showdown: true, SmallStacks: true}, []Monitor{&settleMon{}}
 	case "C04":
-		return Profile{Probes: 6}, []Monitor{&orderMon{}}
+		return Profile{Probes: 6, Hostile: true}, []Monitor{&orderMon{}}
 	case "C05":
 		return Profile{SmallStacks: true, Hostile: true}, []Monitor{&closeMon{}}
 	case "C06":
-		return Profile{Hostile: true, Probes: 3}, []Monitor{&progressMon{}}
+		return Profile{Hostile: true, Probes: 3, NoBBGames: true}, []Monitor{&progressMon{}}
 	case "C07":
-		return Profile{Cuts: true, Hostile: true, Probes: 1}, []Monitor{&resumeMon{}}
+		return Profile{Cuts: true, Hostile: true, Probes: 1, NoBBGames: true}, []Monitor{&resumeMon{}}
 	case "C10":
 		return Profile{ThemedDecks: true, Showdown: true}, []Monitor{&bestMon{}}
 	case "C11":
@@ -36,13 +36,13 @@ func profileFor(prop string) (Profile, []Monitor) {
 	case "C13":
 		return Profile{SmallStacks: true}, []Monitor{&forcedMon{}}
 	case "C14":
-		return Profile{Probes: 1}, []Monitor{&dealMon{}}
+		return Profile{Probes: 1, NoBBGames: true}, []Monitor{&dealMon{}}
 	case "C15":
 		every := 3
 		if vlib.Thorough() {
 			every = 1
 		}
-		return Profile{}, []Monitor{&viewMon{every: every}}
+		return Profile{NoBBGames: true}, []Monitor{&viewMon{every: every}}
 	case "C16":
 		return Profile{SmallStacks: true, Probes: 1}, []Monitor{&potsMon{}}
 	}
@@ -144,6 +144,9 @@ func genericFacts(h *Hand) {
 	if h.Cfg.NoSBSeat {
 		h.Facts["no-sb-seat"] = true
 	}
+	if h.Cfg.NoBBSeat {
+		h.Facts["no-bb-seat"] = true
+	}
 	h.Facts[fmt.Sprintf("variant:%d/%d", h.Cfg.Hole, h.Cfg.Req)] = true
 	if h.Cfg.DB > 0 {
 		h.Facts["dealer-blind"] = true
@@ -187,6 +190,15 @@ func TestHand(t *testing.T) {
 		_, mons := profileFor(prop)
 		cfg := GenCfg(rt, pr)
 		h := &Hand{Prop: prop, Cfg: cfg, St: st, Mons: mons}
+		h.OnHang = func(v *vlib.Violation) {
+			// the stuck goroutine cannot be stopped: report (unshrunk) and end the process
+			b, _ := json.Marshal(&Case{Prop: prop, Cfg: cfg, Ops: h.Ops, Note: "an engine operation never returned; not shrunk"})
+			path := vlib.WriteReplay(&vlib.Replay{Property: prop, Harness: "hand", Kind: "hand", Case: b, Violation: v})
+			st.Violations++
+			st.Write(os.Getenv("VERIF_OUT"))
+			fmt.Printf("HARNESS-VIOLATION property=%s signature=%q replay=%s\n   %s\n", prop, v.Signature, path, v.Detail)
+			os.Exit(1)
+		}
 		rc := NewRapidChooser(rt, pr)
 		h.policy = rc.Policy
 		var ch Chooser = rc
@@ -225,6 +237,10 @@ func TestHand(t *testing.T) {
 func replayHand(c *Case, prop string) (*Hand, *vlib.Violation) {
 	_, mons := profileFor(prop)
 	h := &Hand{Prop: prop, Cfg: c.Cfg, St: vlib.NewStats("replay"), Mons: mons}
+	h.OnHang = func(v *vlib.Violation) {
+		fmt.Printf("REPLAY-VIOLATION property=%s signature=%q\n   %s\n", v.Property, v.Signature, v.Detail)
+		os.Exit(1)
+	}
 	var ch Chooser = &ReplayChooser{Ops: c.Ops}
 	v := h.Run(ch)
 	return h, v
